@@ -91,15 +91,23 @@ theorem model_dynLookup_outermost (env : VEnv) (hwf : EnvWF env) (name : String)
   rw [model_dynLookup_eq_spec env hwf name stack hstack,
       dynamicRef_outermost (specEnvOf env) name stack pre post s t hsc hpre hs]
 
-/-- the `$dynamicRef` block is one in-place application, to the Spec's target -/
-theorem model_dynamicRef_target (env : VEnv) (hwf : EnvWF env) (rec : Go.Rec) (stack : List NodeId)
+/-- the `$dynamicRef` block is one in-place application, to the Spec's target — under 2020-12 (`hd20`), where the keyword
+    exists; under draft-07 it is an unknown keyword and the block does nothing (`model_dynamicRef_draft7`) -/
+theorem model_dynamicRef_target (env : VEnv) (hd20 : env.draft = .d2020) (hwf : EnvWF env) (rec : Go.Rec)
+    (stack : List NodeId)
     (hstack : ∀ x, x ∈ stack → (env.info? x).isSome = true) (n : Node) (i : Info) (initial : NodeId)
     (hdr : n.dynamicRef ≠ "") (hres : i.resolvedDynamicRef = some initial) (inst : GoVal) (anns : Anns) :
     Go.bDynamicRef env rec stack n (some i) inst anns =
       Go.mustValid rec stack inst
         (if i.dynamicRefAnchor = "" then initial
          else (Spec.dynTarget (specEnvOf env) stack i.dynamicRefAnchor).getD initial) anns :=
-  Inv.bDynamicRef_target env hwf rec stack hstack n i initial hdr hres inst anns
+  Inv.bDynamicRef_target env hd20 hwf rec stack hstack n i initial hdr hres inst anns
+
+/-- draft-07: `$dynamicRef` is an unknown keyword — the block applies nothing, whatever the resolution tables hold -/
+theorem model_dynamicRef_draft7 (env : VEnv) (hd7 : env.draft = .d7) (rec : Go.Rec) (stack : List NodeId) (n : Node)
+    (info : Option Info) (inst : GoVal) (anns : Anns) :
+    Go.bDynamicRef env rec stack n info inst anns = .ok anns :=
+  Refine.bDynamicRef_d7 env hd7 rec stack n info inst anns
 
 /-! ## no history -/
 
